@@ -291,6 +291,32 @@ def tier_n(tier):
     return 3 if tier == "quick" else 4
 
 
+def exhaustive_sequences(o, length, kind="map"):
+    """thorough tier: EVERY sequence of `length` operations over a small alphabet on a capacity-2
+    container with a 3-class universe (so full, empty, duplicate and swap-remove situations all
+    occur), each followed by observations."""
+    if kind == "map":
+        alpha = ([f"m0 insert {{k{c}}} {{v}}" for c in range(3)] +
+                 [f"m0 remove q:{c}#0" for c in range(3)] +
+                 [f"m0 insert_key_value {{k0}} {{v}}", f"m0 checked_insert {{k2}} {{v}}", "m0 remove_entry k:1#0",
+                  "m0 retain 5 1", "m0 clear", "m0 drain 1 drop", "m0 get_mut q:0#0 2", "m0 entry {k1} [1] oi:{v}"])
+        tail = ["m0 len", "m0 iter iter 0 nnn", "m0 get q:0#0", "m0 get q:1#0", "m0 get q:2#0"]
+        caps = dict(m0=2, m1=2)
+    else:
+        alpha = ([f"s0 insert {{k{c}}}" for c in range(3)] + [f"s0 remove q:{c}#0" for c in range(3)] +
+                 ["s0 replace {k0}", "s0 take k:1#0", "s0 retain 5", "s0 clear", "s0 drain 1 drop",
+                  "s0 extend 1 [{k1},{k2}]"])
+        tail = ["s0 len", "s0 iter nnn", "s0 contains q:0#0", "s0 contains q:1#0", "s0 contains q:2#0"]
+        caps = dict(s0=2, s1=2)
+    for seq in itertools.product(alpha, repeat=length):
+        o.case(tag="x", **caps)
+        for t in seq:
+            o.op(inst(o, t))
+        for t in tail:
+            o.op(t)
+        o.end()
+
+
 def gen_C01(o, rng, tier):
     n = tier_n(tier)
     for nn in range(0, n + 1):
@@ -303,6 +329,9 @@ def gen_C01(o, rng, tier):
                        with_forget=False)
         o.end()
     umap_product(o, 2, {'insert', 'lookup', 'remove', 'bulk'})
+    if tier == "thorough":
+        for ln in (1, 2, 3, 4):
+            exhaustive_sequences(o, ln, "map")
 
 
 def gen_C02(o, rng, tier):
@@ -637,6 +666,9 @@ def gen_C07(o, rng, tier):
         o.case(s0=nn, s1=rng.choice([1, 2, 3, 4, 6]), tag="r")
         random_set_seq(o, rng, nn, rng.randint(10, 60), list(range(nn + 2)))
         o.end()
+    if tier == "thorough":
+        for ln in (1, 2, 3, 4):
+            exhaustive_sequences(o, ln, "set")
 
 
 def gen_C08(o, rng, tier):
